@@ -1,5 +1,5 @@
 CONSTANTS
-  Alphabet = {0, 10, 127, 128, 143, 144, 159, 160, 191, 193, 194, 223, 224, 237, 239, 240, 244, 245, 247, 248}
+  Alphabet = {0, 10, 127, 128, 143, 144, 159, 160, 191, 193, 194, 224, 237, 240, 244, 245, 248}
   MaxLen = 4
   Scalars = "all"
 SPECIFICATION Spec
